@@ -1,0 +1,26 @@
+//go:build verif
+
+// Contracts for package op, checked by /verif/engine (govc). Comment-only.
+// Spec functions (shoelace2, lenTo, ...) are those of package geom.
+
+package op
+
+//@ func area
+//@   prop C03
+//@   mode real
+//@   ensures [empty] len(polygon) == 0 ==> result == 0
+//@   ensures [shoelace] len(polygon) >= 1 ==> result == shoelace2(polygon) / 2
+//@   modifies nothing
+//@   loop 1 `for i := 0; i < highI; i++`
+//@     invariant [sum] 0 <= i && i <= highI && highI == len(polygon) - 1 && A == shTerm(polygon[highI], polygon[0]) + shTo(polygon, i)
+//@     decreases highI - i
+
+//@ func length
+//@   prop C03
+//@   mode real
+//@   ensures [empty] len(line) == 0 ==> result == 0
+//@   ensures [sum] len(line) >= 1 ==> result == lenTo(line, len(line) - 1)
+//@   modifies nothing
+//@   loop 1 `for i := 0; i < len(line)-1; i++`
+//@     invariant [sum] 0 <= i && (len(line) >= 1 ? i <= len(line) - 1 : i == 0) && l == lenTo(line, i)
+//@     decreases len(line) - i
